@@ -253,7 +253,7 @@ def correspondence(ctx):
     for fn, arg in (('greet', 'Ada'), ('greet', 'Grace'), ('quiet', 'Ada')):
         for later in ([], [['greet', 'Zed']], [['quiet', 'q'], ['greet', 'Bob']], [['quiet', 'x']]):
             for text in ('Hello, Ada!', 'hello ada', 'Ada', 'Grace', 'Welcome.', 'Hello, Ada!\nWelcome.\n', 'Hello, Grace!\nWelcome.\n', '', 'zzz',
-                         'H.llo', '^Hello, (Ada|Bob)!$'):
+                         'H.llo', '^Hello, (Ada|Bob)!$', 'ada', 'HELLO', 'welcome', 'hello, ada!'):
                 for exact in (False, True):
                     outputs.append({'fn': fn, 'arg': arg, 'later': later, 'text': text, 'exact': exact})
     res = vlib.run_impl('c07_impl.py', {'cases': cases, 'unit_tests': mixes, 'outputs': outputs}, timeout=1800)
